@@ -83,6 +83,11 @@ func execCrash(input string) Result {
 	}
 	sp.TimeoutMs = 25000
 	sp.MaxHops = 0
+	if kv["badrow"] == "1" {
+		// a row the queue cannot parse, handed out before the others: lq discards it (reports it finished); the rows after
+		// it must be treated as always
+		sp.LQRows = append([]LQRow{{ID: "row-unparsable", Value: "http://[::1/x", Hops: 0}}, sp.LQRows...)
+	}
 	_, evs1, _ := runChild(sp, 50*time.Second)
 	rowsAfter1, errDB := readLQ(sp.Dir)
 	scan1 := scanWarcDirAll(filepath.Join(sp.Dir, "jobs"))
@@ -102,6 +107,9 @@ func execCrash(input string) Result {
 	sid := map[string]int{}
 	var all []string
 	for i, r := range sp.LQRows {
+		if r.ID == "row-unparsable" {
+			continue // not a URL: never part of the accounting
+		}
 		sid[r.ID] = i
 		all = append(all, strconv.Itoa(i))
 	}
@@ -179,6 +187,38 @@ func execCrash(input string) Result {
 			}
 		}
 	}
+	// "finished implies captured", seed by seed: a row deleted in run 1 whose own URL the site answers (any status that is
+	// not discarded; not a resource that drops or stalls the connection) has a response/revisit record for that URL
+	// among the complete records - whether or not the archiver ever acknowledged a write for it
+	uncaptured := 0
+	if port1 := func() int {
+		if len(evs1) > 0 && evs1[0].kind == "run" && len(evs1[0].fields) >= 2 {
+			p, _ := strconv.Atoi(evs1[0].fields[1])
+			return p
+		}
+		return 0
+	}(); port1 != 0 {
+		hostA, hostB := fmt.Sprintf("127.0.0.2:%d", port1), fmt.Sprintf("127.0.0.3:%d", port1)
+		site := &e2eSite{seed: sp.SiteSeed, mode: sp.SiteMode, hostA: hostA, hostB: hostB, hostX: fmt.Sprintf("127.0.0.9:%d", port1), attempts: map[string]int{}}
+		for _, x := range deleted1 {
+			i, _ := strconv.Atoi(x)
+			u := strings.NewReplacer("{A}", hostA, "{B}", hostB).Replace(sp.LQRows[i].Value)
+			res := site.lookup(u)
+			if res.drop || res.stall || res.cfMitigate || have[u] {
+				continue
+			}
+			discarded := false
+			for _, d := range sp.Discard {
+				if d == res.status || (res.failFirst > 0 && d == 503) {
+					discarded = true
+				}
+			}
+			if !discarded {
+				uncaptured++
+				note(fmt.Sprintf("crash case [%s]: seed %s (%s) was reported finished and deleted from the queue, but no response record for it is on disk", input, sp.LQRows[i].ID, u))
+			}
+		}
+	}
 	// run 2: which seeds were fetched again (arch.fetch of the seed's own URL), which rows remain
 	port2 := 0
 	if len(evs2) > 0 && evs2[0].kind == "run" && len(evs2[0].fields) >= 2 {
@@ -209,7 +249,7 @@ func execCrash(input string) Result {
 	complete2 := res2 != nil && res2.StopReturned && !res2.TimedOut && status2 == ""
 	term := fmt.Sprintf("CC %s %s %s %s %s %s %s %s %s %s %s %s %d %d %d", coqList(all), coqList(claimed), coqList(finished1), coqList(deleted1), coqList(preprocessed),
 		coqList(fresh1), coqList(claimed1), coqList(fetched2), coqList(left2), coqBool(complete2), coqBool(sp.StopAt == nil), coqBool(sp.KillAt != nil),
-		missing, scan1.MidFileDefects, badFinish)
+		missing+uncaptured, scan1.MidFileDefects, badFinish)
 	mode := "kill"
 	point := "time"
 	switch {
@@ -245,6 +285,12 @@ func genCrash(r *Rng, i int, tier string) string {
 	s := fmt.Sprintf("site=%d w=%d mca=%d sched=%d seeds=%d mr=%d retry=0", r.U64()%1000000, 1+r.Intn(3), 1+r.Intn(2), r.U64()%1000, 2+r.Intn(6), 1+r.Intn(2))
 	if r.Chance(40) {
 		s += " seencheck=0"
+	}
+	if r.Chance(20) {
+		s += " mode=slow" // every answer takes 120-420 ms: the kill or stop finds fetches in flight
+	}
+	if r.Chance(15) {
+		s += " badrow=1" // an unparsable row is handed out first
 	}
 	switch i % 5 {
 	case 0, 1, 2:
